@@ -35,8 +35,30 @@ def _pop_cc(fmap, _cc, _l, _else):
     fmap[sp] = tst(_cc, _sp + _l.length, _sp)
 
 
+# The flags below are defined on bit patterns: they must not depend on the sign
+# flag (.sf) that the operand expressions happen to carry (a signed immediate, a
+# constant made negative by a subtraction, a flag inherited from an operand...),
+# so no signed comparison (<, >) is used to compute them.
+def __msb__(_x):
+    # S flag: most significant bit of the result
+    return _x[_x.size - 1 : _x.size]
+
+
+def __ltu__(_x, _y):
+    # carry/borrow detection: unsigned _x < _y
+    return oper(OP_LTU, _x, _y)
+
+
 def __halfcarry__(_a, _b):
-    return (_a[0:4] > 0xF) | (_b[0:4] > 0xF)
+    # carry out of bit 3 (bit 11 for 16-bit operands) of _a + _b
+    n = _a.size - 4
+    return (_a[0:n].zeroextend(n + 1) + _b[0:n].zeroextend(n + 1))[n : n + 1]
+
+
+def __halfborrow__(_a, _b):
+    # borrow from bit 4 (bit 12 for 16-bit operands) of _a - _b
+    n = _a.size - 4
+    return (_a[0:n].zeroextend(n + 1) - _b[0:n].zeroextend(n + 1))[n : n + 1]
 
 
 # i_xxx is the translation of z80 instruction xxx.
@@ -79,7 +101,7 @@ def i_LD(i_, fmap):
     fmap[pc] = fmap[pc] + i_.length
     fmap[dst] = fmap(src)
     if src.size == i.size and ((src == i) or (src == r)):
-        fmap[sf] = tst(fmap[src] < 0, bit1, bit0)
+        fmap[sf] = __msb__(fmap[src])
         fmap[zf] = tst(fmap[src] == 0, bit1, bit0)
         fmap[hf] = bit0
         fmap[nf] = bit0
@@ -88,12 +110,15 @@ def i_LD(i_, fmap):
 
 def i_LDHL(i_, fmap):
     fmap[pc] = fmap[pc] + i_.length
-    _x = fmap[sp] + i_.operands[1]
+    _sp = fmap[sp]
+    _e = i_.operands[1]
+    _x = _sp + _e
     fmap[hl] = _x
     fmap[zf] = bit0
     fmap[nf] = bit0
-    fmap[cf] = tst(_x < fmap[sp], bit1, bit0)
-    fmap[hf] = __halfcarry__(fmap(sp), i_.operands[1])
+    # carries out of bit 7 and bit 3 of (low byte of sp) + (byte e):
+    fmap[cf] = __ltu__(_x[0:8], _sp[0:8])
+    fmap[hf] = __halfcarry__(_sp[0:8], _e[0:8])
 
 
 def i_PUSH(i_, fmap):
@@ -169,7 +194,7 @@ def i_CPI(i_, fmap):
     fmap[bc] = fmap[bc] - 1
     fmap[sf] = _x[7:8]
     fmap[zf] = tst(_x == 0, bit1, bit0)
-    fmap[hf] = __halfcarry__(_a, _b)
+    fmap[hf] = __halfborrow__(_a, _b)
     fmap[pf] = tst(fmap[bc] != 0, bit1, bit0)
     fmap[nf] = bit1
 
@@ -189,7 +214,7 @@ def i_CPD(i_, fmap):
     fmap[bc] = fmap[bc] - 1
     fmap[sf] = _x[7:8]
     fmap[zf] = tst(_x == 0, bit1, bit0)
-    fmap[hf] = __halfcarry__(_a, _b)
+    fmap[hf] = __halfborrow__(_a, _b)
     fmap[pf] = tst(fmap[bc] != 0, bit1, bit0)
     fmap[nf] = bit1
 
@@ -207,8 +232,8 @@ def i_ADD(i_, fmap):
     _b = fmap(src)
     _x = _a + _b
     fmap[zf] = tst(_x == 0, bit1, bit0)
-    fmap[sf] = tst(_x < 0, bit1, bit0)
-    fmap[cf] = tst(_x < _a, bit1, bit0)
+    fmap[sf] = __msb__(_x)
+    fmap[cf] = __ltu__(_x, _a)
     fmap[hf] = __halfcarry__(_a, _b)
     fmap[nf] = bit0
     fmap[dst] = _x
@@ -225,7 +250,7 @@ def i_ADC(i_, fmap):
     _x = _a + _c
     fmap[zf] = tst(_x == 0, bit1, bit0)
     fmap[sf] = _x[_x.size - 1 : _x.size]
-    fmap[cf] = _c1 | tst(_x < _a, bit1, bit0)
+    fmap[cf] = _c1 | __ltu__(_x, _a)
     fmap[hf] = _h1 | __halfcarry__(_a, _c)
     fmap[dst] = _x
 
@@ -238,9 +263,9 @@ def i_SUB(i_, fmap):
     _b = fmap(src)
     _x = _a - _b
     fmap[zf] = tst(_x == 0, bit1, bit0)
-    fmap[sf] = tst(_x < 0, bit1, bit0)
-    fmap[cf] = tst(_x > _a, bit1, bit0)
-    fmap[hf] = __halfcarry__(_a, -_b)
+    fmap[sf] = __msb__(_x)
+    fmap[cf] = __ltu__(_a, _x)
+    fmap[hf] = __halfborrow__(_a, _b)
     fmap[nf] = bit0
     fmap[dst] = _x
 
@@ -256,8 +281,8 @@ def i_SBC(i_, fmap):
     _x = _y - _c
     fmap[zf] = tst(_x == 0, bit1, bit0)
     fmap[sf] = _x[_x.size - 1 : _x.size]
-    fmap[cf] = tst(_y > _a, bit1, bit0) | tst(_x > _y, bit1, bit0)
-    fmap[hf] = __halfcarry__(_a, -_b) | __halfcarry__(_y, -_c)
+    fmap[cf] = __ltu__(_a, _y) | __ltu__(_y, _x)
+    fmap[hf] = __halfborrow__(_a, _b) | __halfborrow__(_y, _c)
     fmap[nf] = bit1
     fmap[dst] = _x
 
@@ -270,7 +295,7 @@ def i_AND(i_, fmap):
     _b = fmap(src)
     _x = _a & _b
     fmap[zf] = tst(_x == 0, bit1, bit0)
-    fmap[sf] = tst(_x < 0, bit1, bit0)
+    fmap[sf] = __msb__(_x)
     fmap[cf] = bit0
     fmap[hf] = bit1
     fmap[nf] = bit0
@@ -285,7 +310,7 @@ def i_OR(i_, fmap):
     _b = fmap(src)
     _x = _a | _b
     fmap[zf] = tst(_x == 0, bit1, bit0)
-    fmap[sf] = tst(_x < 0, bit1, bit0)
+    fmap[sf] = __msb__(_x)
     fmap[cf] = bit0
     fmap[hf] = bit0
     fmap[nf] = bit0
@@ -300,7 +325,7 @@ def i_XOR(i_, fmap):
     _b = fmap(src)
     _x = _a ^ _b
     fmap[zf] = tst(_x == 0, bit1, bit0)
-    fmap[sf] = tst(_x < 0, bit1, bit0)
+    fmap[sf] = __msb__(_x)
     fmap[cf] = bit0
     fmap[hf] = bit0
     fmap[nf] = bit0
@@ -314,9 +339,9 @@ def i_CP(i_, fmap):
     _b = fmap(src)
     _x = _a - _b
     fmap[zf] = tst(_x == 0, bit1, bit0)
-    fmap[sf] = tst(_x < 0, bit1, bit0)
-    fmap[cf] = tst(_x > _a, bit1, bit0)
-    fmap[hf] = __halfcarry__(_a, -_b)
+    fmap[sf] = __msb__(_x)
+    fmap[cf] = __ltu__(_a, _x)
+    fmap[hf] = __halfborrow__(_a, _b)
     fmap[nf] = bit1
 
 
@@ -326,9 +351,9 @@ def i_INC(i_, fmap):
     _a = fmap(dst)
     _x = _a + 1
     fmap[zf] = tst(_x == 0, bit1, bit0)
-    fmap[sf] = tst(_x < 0, bit1, bit0)
-    fmap[cf] = tst(_x < _a, bit1, bit0)
-    fmap[hf] = __halfcarry__(_a, cst(1, 8))
+    fmap[sf] = __msb__(_x)
+    fmap[cf] = __ltu__(_x, _a)
+    fmap[hf] = __halfcarry__(_a, cst(1, _a.size))
     fmap[pf] = tst(_a == 0x7F, bit1, bit0)
     fmap[nf] = bit0
     fmap[dst] = _x
@@ -340,9 +365,9 @@ def i_DEC(i_, fmap):
     _a = fmap(dst)
     _x = _a - 1
     fmap[zf] = tst(_x == 0, bit1, bit0)
-    fmap[sf] = tst(_x < 0, bit1, bit0)
-    fmap[cf] = tst(_x > _a, bit1, bit0)
-    fmap[hf] = __halfcarry__(_a, cst(-1, _a.size))
+    fmap[sf] = __msb__(_x)
+    fmap[cf] = __ltu__(_a, _x)
+    fmap[hf] = __halfborrow__(_a, cst(1, _a.size))
     fmap[pf] = tst(_a == 0x80, bit1, bit0)
     fmap[nf] = bit1
     fmap[dst] = _x
@@ -355,8 +380,8 @@ def i_DAA(i_, fmap):
     fmap[pc] = fmap[pc] + i_.length
     _a = fmap(a)
     _n = fmap(nf)
-    _lo = fmap(hf) | (_a[0:4] > 9)
-    _hi = fmap(cf) | (_a > 0x99)
+    _lo = fmap(hf) | __ltu__(cst(9, 4), _a[0:4])
+    _hi = fmap(cf) | __ltu__(cst(0x99, 8), _a)
     _d = tst(_lo, cst(0x06, 8), cst(0, 8)) | tst(_hi, cst(0x60, 8), cst(0, 8))
     _x = tst(_n, _a - _d, _a + _d)
     _p = bit1
@@ -386,7 +411,7 @@ def i_NEG(i_, fmap):
     fmap[a] = -_a
     fmap[nf] = bit1
     fmap[zf] = tst(_a == 0, bit1, bit0)
-    fmap[sf] = tst(_a < 0, bit1, bit0)
+    fmap[sf] = __msb__(-_a)
 
 
 def i_CCF(i_, fmap):
@@ -412,7 +437,7 @@ def i_RLCA(i_, fmap):
     fmap[hf] = bit0
     fmap[nf] = bit0
     fmap[zf] = tst(fmap[a] == 0, bit1, bit0)
-    fmap[sf] = tst(fmap[a] < 0, bit1, bit0)
+    fmap[sf] = __msb__(fmap[a])
 
 
 def i_RLA(i_, fmap):
@@ -424,7 +449,7 @@ def i_RLA(i_, fmap):
     fmap[hf] = bit0
     fmap[nf] = bit0
     fmap[zf] = tst(fmap[a] == 0, bit1, bit0)
-    fmap[sf] = tst(fmap[a] < 0, bit1, bit0)
+    fmap[sf] = __msb__(fmap[a])
 
 
 def i_RRCA(i_, fmap):
@@ -435,7 +460,7 @@ def i_RRCA(i_, fmap):
     fmap[hf] = bit0
     fmap[nf] = bit0
     fmap[zf] = tst(fmap[a] == 0, bit1, bit0)
-    fmap[sf] = tst(fmap[a] < 0, bit1, bit0)
+    fmap[sf] = __msb__(fmap[a])
 
 
 def i_RRA(i_, fmap):
@@ -447,7 +472,7 @@ def i_RRA(i_, fmap):
     fmap[hf] = bit0
     fmap[nf] = bit0
     fmap[zf] = tst(fmap[a] == 0, bit1, bit0)
-    fmap[sf] = tst(fmap[a] < 0, bit1, bit0)
+    fmap[sf] = __msb__(fmap[a])
 
 
 def _rotshift_(i_, fmap, _x, _c):
